@@ -503,10 +503,12 @@ fn gen_chain(rng: &mut Rng, cfg: &GenCfg, next_id: &mut usize, counter: &mut usi
 }
 
 impl Node {
-    /// put (or replace by) a clear top-level member
+    /// put a clear top-level member, or replace a clear *leaf* of that name by it; a member of that name that is
+    /// disclosable or a container is left alone (replacing it would take its marks, and those inside it, away:
+    /// the tree must keep the number of marks it was generated with)
     pub fn set_top_member(&mut self, key: &str, v: Value) {
         if let Node::Obj(ms, _) = self {
-            ms.retain(|m| m.key != key || !matches!(m.mark, Mark::Clear));
+            ms.retain(|m| m.key != key || !(matches!(m.mark, Mark::Clear) && matches!(m.node, Node::Leaf(_))));
             if ms.iter().any(|m| m.key == key) { return; }
             ms.push(Mem { key: key.to_string(), mark: Mark::Clear, node: Node::Leaf(v) });
             ms.sort_by(|a, b| a.key.as_bytes().cmp(b.key.as_bytes()));
